@@ -1,6 +1,6 @@
 // C19: one program per documented template configuration. Macros select the cell of the matrix:
 //   VC_DIM 1..4, VC_REALF 0 double / 1 float, VC_ORD 0 Morton / 1 periodic Morton / 2 Hilbert (Dim 3),
-//   VC_AUTO 1 automatic block size, VC_REBUILD 1 with rebuild cycles, VC_EXEC 0 sequential / 1 OpenMP (shim) / 2 target-source,
+//   VC_AUTO 1 automatic block size, VC_REBUILD 1 with rebuild cycles, VC_EXEC 0 sequential / 1 OpenMP (shim) / 2 target-source / 3 OpenMP target-source (shim),
 //   VC_VARIANT 0 data type == coordinate type, 1 data type != coordinate type, 2 zero result values (void_data)
 // The program runs the C01 / C06 / C13 oracles of the other engines on a seeded sample of trees of that configuration.
 #include "sched_core.hpp"
@@ -41,7 +41,7 @@ template <class RealT, class SpaceT> struct CellCount {
 
 std::string cellName() {
     return std::string("Dim") + vh::str(VC_DIM) + (VC_REALF ? ",float" : ",double") + (VC_ORD == 0 ? ",morton" : VC_ORD == 1 ? ",periodic-morton" : ",hilbert") + (VC_AUTO ? ",auto-block" : ",explicit-block")
-         + (VC_REBUILD ? ",rebuild" : ",no-rebuild") + (VC_EXEC == 0 ? ",sequential" : VC_EXEC == 1 ? ",openmp" : ",target-source") + (VC_VARIANT == 1 ? ",data!=real" : VC_VARIANT == 2 ? ",zero-rhs" : "");
+         + (VC_REBUILD ? ",rebuild" : ",no-rebuild") + (VC_EXEC == 0 ? ",sequential" : VC_EXEC == 1 ? ",openmp" : VC_EXEC == 2 ? ",target-source" : ",openmp-target-source") + (VC_VARIANT == 1 ? ",data!=real" : VC_VARIANT == 2 ? ",zero-rhs" : "");
 }
 
 void runCase(long kk, uint64_t seed, bool th, Result& res) {
@@ -91,6 +91,21 @@ void runCase(long kk, uint64_t seed, bool th, Result& res) {
         }
 #else
         static const auto seg = sch::c03Segment<E>(1, 1, false);
+        seg.run(kk, s2, false, res);
+#endif
+#elif VC_EXEC == 3
+#if VC_ORD == 2
+        {   // Hilbert: per-pair counts through the OpenMP target/source executor under shim schedules
+            vh::Rng r(vh::mix(s2, kk)); auto c = fmm::randomTsmConf<E>(r, vh::mix(s2, kk), 100, 1); res.desc = fmm::tsmDesc<E>(c) + " executor=TbfOpenmpAlgorithmTsm";
+            bool nt = false;
+            for (const auto& sd : sch::schedulesFor(r, false, 0)) {
+                fmm::runSetTsm<E>(c, res, [&](auto& tree, const auto& cfg) { vsched::configure(sd.threads, sd.policy, sd.seed); auto a = std::make_unique<TbfOpenmpAlgorithmTsm<Real, typename E::SetKernel, Space>>(cfg, c.upper); a->execute(tree); }, nt, false);
+                res.ev("schedules-executed");
+            }
+            res.nontrivial = nt; res.sig = "omp-tsm-hilbert:" + vh::str(vh::mix(c.seed, 4));
+        }
+#else
+        static const auto seg = sch::c09OmpSegment<E>(1, 1, false);
         seg.run(kk, s2, false, res);
 #endif
 #else
